@@ -1,17 +1,22 @@
 package sim
 
 import (
+	"encoding/json"
 	"errors"
 	"fmt"
 	"math/rand"
 	"sort"
 	"strconv"
 
+	jsonpatch "gopkg.in/evanphx/json-patch.v4"
 	v1 "k8s.io/api/core/v1"
+	"k8s.io/apimachinery/pkg/api/equality"
 	apierrors "k8s.io/apimachinery/pkg/api/errors"
 	"k8s.io/apimachinery/pkg/labels"
 	"k8s.io/apimachinery/pkg/runtime"
 	"k8s.io/apimachinery/pkg/runtime/schema"
+	"k8s.io/apimachinery/pkg/types"
+	"k8s.io/apimachinery/pkg/util/strategicpatch"
 	"k8s.io/client-go/kubernetes/fake"
 	v1lister "k8s.io/client-go/listers/core/v1"
 	core "k8s.io/client-go/testing"
@@ -188,9 +193,52 @@ func (c *Cluster) react(action core.Action) (bool, runtime.Object, error) {
 			if a, ok := action.(core.DeleteAction); ok {
 				return c.deleteNode(a.GetName())
 			}
+		case "patch":
+			if a, ok := action.(core.PatchAction); ok {
+				return c.patchNode(a.GetName(), a.GetPatchType(), a.GetPatch())
+			}
+		case "list":
+			// a direct (uncached) list: answered from the store
+			c.J.Add(&Event{API: K8sGet, Target: "", Resource: "nodes", Verb: "list", Count: len(c.Nodes)})
+			out := &v1.NodeList{}
+			for _, name := range c.SortedNodeNames() {
+				out.Items = append(out.Items, *c.Nodes[name].DeepCopy())
+			}
+			return true, out, nil
 		}
 	}
-	// anything else is not something escalator is expected to do
+	if res == "pods" && action.GetSubresource() == "" {
+		switch verb {
+		case "list":
+			c.J.Add(&Event{API: K8sGet, Target: "", Resource: "pods", Verb: "list", Count: len(c.Pods)})
+			out := &v1.PodList{}
+			for _, k := range c.SortedPodKeys() {
+				if ns := action.GetNamespace(); ns == "" || ns == c.Pods[k].Namespace {
+					out.Items = append(out.Items, *c.Pods[k].DeepCopy())
+				}
+			}
+			return true, out, nil
+		case "get":
+			if a, ok := action.(core.GetAction); ok {
+				c.J.Add(&Event{API: K8sGet, Target: a.GetName(), Resource: "pods", Verb: "get"})
+				for _, k := range c.SortedPodKeys() {
+					if p := c.Pods[k]; p.Name == a.GetName() && p.Namespace == action.GetNamespace() {
+						return true, p.DeepCopy(), nil
+					}
+				}
+				return true, nil, apierrors.NewNotFound(schema.GroupResource{Resource: "pods"}, a.GetName())
+			}
+		}
+	}
+	if res == "events" && (verb == "create" || verb == "patch" || verb == "update") {
+		// diagnostics: accepted and dropped
+		c.J.Add(&Event{API: K8sGet, Target: "", Resource: "events", Verb: verb})
+		if a, ok := action.(core.CreateAction); ok {
+			return true, a.GetObject(), nil
+		}
+		return true, &v1.Event{}, nil
+	}
+	// anything else is not something the simulated API server models
 	name := ""
 	if g, ok := action.(interface{ GetName() string }); ok {
 		name = g.GetName()
@@ -256,6 +304,115 @@ func (c *Cluster) updateNode(sent *v1.Node) (bool, runtime.Object, error) {
 	ev.Applied = true
 	if k == FAfterEffect {
 		err := k8sErr(FServerErr, "nodes", sent.Name)
+		ev.Err, ev.Injected = err.Error(), true
+		return true, nil, err
+	}
+	return true, stored.DeepCopy(), nil
+}
+
+// patchNode applies a JSON, merge or strategic-merge patch to the stored node and journals it as the update it
+// amounts to (body sent = stored object with the patch applied), so that every monitor of node writes sees it.
+func (c *Cluster) patchNode(name string, pt types.PatchType, patch []byte) (bool, runtime.Object, error) {
+	apply := func(cur *v1.Node) (*v1.Node, error) {
+		old, _ := json.Marshal(cur)
+		var merged []byte
+		var err error
+		switch pt {
+		case types.JSONPatchType:
+			var jp jsonpatch.Patch
+			if jp, err = jsonpatch.DecodePatch(patch); err == nil {
+				merged, err = jp.Apply(old)
+			}
+		case types.MergePatchType:
+			merged, err = jsonpatch.MergePatch(old, patch)
+		case types.StrategicMergePatchType:
+			merged, err = strategicpatch.StrategicMergePatch(old, patch, &v1.Node{})
+		default:
+			err = fmt.Errorf("patch type %s is not modelled", pt)
+		}
+		if err != nil {
+			return nil, err
+		}
+		patched := &v1.Node{}
+		if err := json.Unmarshal(merged, patched); err != nil {
+			return nil, err
+		}
+		// The JSON round trip alone changes how some values are represented (zero times, empty maps). Carry over to
+		// a copy of the stored object only what the patch really changed; if it changed anything beyond the usual
+		// fields, fall back to the round-tripped object.
+		rt := &v1.Node{}
+		if err := json.Unmarshal(old, rt); err != nil {
+			return nil, err
+		}
+		out := cur.DeepCopy()
+		carry := func(dst, a, b *v1.Node) {
+			if !equality.Semantic.DeepEqual(a.Spec.Taints, b.Spec.Taints) {
+				dst.Spec.Taints = b.Spec.Taints
+			}
+			if !equality.Semantic.DeepEqual(a.Labels, b.Labels) {
+				dst.Labels = b.Labels
+			}
+			if !equality.Semantic.DeepEqual(a.Annotations, b.Annotations) {
+				dst.Annotations = b.Annotations
+			}
+			if !equality.Semantic.DeepEqual(a.Finalizers, b.Finalizers) {
+				dst.Finalizers = b.Finalizers
+			}
+			dst.Spec.Unschedulable = b.Spec.Unschedulable
+			dst.Spec.ProviderID = b.Spec.ProviderID
+			dst.ResourceVersion = b.ResourceVersion
+		}
+		carry(out, rt, patched)
+		probe := rt.DeepCopy()
+		carry(probe, rt, patched)
+		if !equality.Semantic.DeepEqual(probe, patched) {
+			return patched, nil
+		}
+		return out, nil
+	}
+	ev := c.J.Add(&Event{API: K8sUpdate, Target: name, Resource: "nodes", Verb: "patch"})
+	if cur, ok := c.Nodes[name]; ok {
+		ev.Before = cur.DeepCopy()
+		if sent, err := apply(cur); err == nil {
+			ev.Sent = sent
+		}
+	}
+	k := c.Faults.next(K8sUpdate, name)
+	if k != FNone && k != FAfterEffect {
+		err := k8sErr(k, "nodes", name)
+		ev.Err, ev.Injected = err.Error(), true
+		return true, nil, err
+	}
+	if c.BeforeUpdate != nil {
+		c.BeforeUpdate(name)
+	}
+	cur, ok := c.Nodes[name]
+	if !ok {
+		err := apierrors.NewNotFound(schema.GroupResource{Resource: "nodes"}, name)
+		ev.Err = err.Error()
+		return true, nil, err
+	}
+	ev.Before = cur.DeepCopy()
+	sent, err := apply(cur)
+	if err != nil {
+		e := apierrors.NewBadRequest("cannot apply patch: " + err.Error())
+		ev.Err = e.Error()
+		return true, nil, e
+	}
+	ev.Sent = sent.DeepCopy()
+	// a patch is a precondition-free write unless it names a resourceVersion itself
+	if sent.ResourceVersion != cur.ResourceVersion {
+		err := apierrors.NewConflict(schema.GroupResource{Resource: "nodes"}, name,
+			errors.New("the object has been modified; please apply your changes to the latest version and try again"))
+		ev.Err = err.Error()
+		return true, nil, err
+	}
+	stored := sent.DeepCopy()
+	stored.ResourceVersion = c.nextRV()
+	c.Nodes[name] = stored
+	ev.Applied = true
+	if k == FAfterEffect {
+		err := k8sErr(FServerErr, "nodes", name)
 		ev.Err, ev.Injected = err.Error(), true
 		return true, nil, err
 	}
